@@ -46,7 +46,7 @@ def _uses(x, names):
     return out
 
 
-def _formula(cond, atoms):
+def _formula(cond, atoms, local_inits=None):
     """propositional skeleton of a branch condition: ('atom', i) / ('not', f) / ('and', f, g) / ('or', f, g); iterator
     comparisons with end() are normalised to one atom `<it>==end`, every other sub-expression is an opaque atom"""
     c = ir.skipcasts(cond)
@@ -54,11 +54,22 @@ def _formula(cond, atoms):
         return ('true',)
     k = c.get('k')
     if k == 'ParenExpr':
-        return _formula(c['c'][0], atoms)
+        return _formula(c['c'][0], atoms, local_inits)
+    if k == 'DeclRefExpr' and local_inits and c.get('n') in local_inits:
+        return _formula(local_inits[c['n']], atoms, local_inits)       # a bool local holding a test
     if k == 'UnaryOperator' and c.get('op') == '!':
-        return ('not', _formula(c['c'][0], atoms))
+        return ('not', _formula(c['c'][0], atoms, local_inits))
     if k == 'BinaryOperator' and c.get('op') in ('&&', '||'):
-        return ('and' if c['op'] == '&&' else 'or', _formula(c['c'][0], atoms), _formula(c['c'][1], atoms))
+        return ('and' if c['op'] == '&&' else 'or', _formula(c['c'][0], atoms, local_inits),
+                _formula(c['c'][1], atoms, local_inits))
+    if (k == 'BinaryOperator' or k == 'CXXOperatorCallExpr') and c.get('op') in ('==', '!=') and not re.search(
+            r'(\.|->)c?end\(\)', ir.show(c)):
+        # a == b and a != b are one atom with two polarities
+        ab = c['c'] if k == 'BinaryOperator' else ir.call_args(c)
+        if len(ab) == 2:
+            ta, tb = sorted(ir.show(x).replace(' ', '') for x in ab)
+            at = ('atom', atoms.setdefault(ta + '==' + tb, len(atoms)))
+            return at if c['op'] == '==' else ('not', at)
     if (k == 'BinaryOperator' or k == 'CXXOperatorCallExpr') and c.get('op') in ('==', '!='):
         a = c['c'] if k == 'BinaryOperator' else ir.call_args(c)
         if len(a) == 2:
